@@ -8,6 +8,8 @@
               op = (0 seed len)  Encrypt(lcg seed len)
                    (1 j 0)       Decrypt(output of op j)   (j is an earlier Encrypt)
                    (2 seed len)  Decrypt(lcg seed len)
+                   (3 ..) (4 ..) (5 ..)  the same three with a separate destination buffer;
+                   every buffer sits at a misalignment (mod 8) derived from its seed
             (1 key iv seed len)                            salsa20 (keystream is an oracle table)
             (2 seed len)                                   none
             (3 name key iv ((seed len) ...))               a cipher made by the factory: messages
@@ -20,6 +22,9 @@
                                                            stock CFB of the message under c keyed with key[:n]
                                                            and iv[:bs] (salsa20: key[:32], nonce iv[:8])
             (6 name keyA ivA keyB ivB seed len)            two instances whose key / iv differ in one byte
+            (7 key iv ((name keylen) ...) seed len)        one secret given to many names in ONE process, in
+                                                           this creation order: NewCrypt(name, key[:keylen], iv);
+                                                           every instance must be what it would be alone
    observed = (panicked (out ...))        for 0
               (keystream enc dec)         for 1   (dec = Decrypt(enc) on a second instance)
               (enc dec)                   for 2
@@ -28,7 +33,8 @@
                                                        salsa20.XORKeyStream / identity; an oracle table)
               (panicked out)              for 4
               (ctor_panicked run_panicked enc dec ((cipher n ref) ...))   for 5
-              (panickedA encA panickedB encB)                             for 6 *)
+              (panickedA encA panickedB encB)                             for 6
+              (((ctor_panicked run_panicked enc dec) ...) ((cipher n ref) ...))   for 7 *)
 From Coq Require Import ZArith NArith List Bool Arith.
 From FV Require Import Lib.Sx C16.Model.
 Import ListNotations.
@@ -61,6 +67,10 @@ Definition dop_of_sx (s : sx) : option dop :=
   | SList [SInt 0%Z; SInt a; SInt b] => Some (DEnc (lcg a b))
   | SList [SInt 1%Z; SInt j; SInt _] => Some (DDecOf (Z.to_nat j))
   | SList [SInt 2%Z; SInt a; SInt b] => Some (DDec (lcg a b))
+  (* 3, 4, 5: the same calls with a separate destination buffer (same returned bytes) *)
+  | SList [SInt 3%Z; SInt a; SInt b] => Some (DEnc (lcg a b))
+  | SList [SInt 4%Z; SInt j; SInt _] => Some (DDecOf (Z.to_nat j))
+  | SList [SInt 5%Z; SInt a; SInt b] => Some (DDec (lcg a b))
   | _ => None
   end.
 
@@ -137,29 +147,34 @@ Fixpoint table_find (c : Z) (n : nat) (t : list sx) : option (list N) :=
   | _ => None
   end.
 
+(* The ciphertext of an instance the model accepts must be stock CFB under the cipher the
+   model selects keyed with the model's used_key and iv[:bs] (the interoperability sentence):
+   a difference is a property failure (1); a missing table entry or a different panic outcome
+   is a model / code mismatch (10, 11, 12). *)
 Definition check_slicing (name key iv : list N) (m : list N) (cp rp : Z) (enc dec : list N) (t : list sx)
   : verdict :=
   match new_crypt name key iv with
   | None => check_that (Z.eqb cp 1) (VMismatch 10)
   | Some i =>
-      if Z.eqb cp 1 then VMismatch 10 else
+      (* the model accepts key and iv: a panic of the code is a property failure (7) *)
+      if Z.eqb cp 1 then VPropFail 7 else
       match i with
       | IBlock c k iv' _ =>
           if length iv' <? cid_bs c then check_that (Z.eqb rp 1) (VMismatch 11)
-          else if Z.eqb rp 1 then VMismatch 11
+          else if Z.eqb rp 1 then VPropFail 7
           else match table_find (cid_num c) (length k) t with
                | Some ref => vjoin (check_that (nlist_eqb dec m) (VPropFail 2))
-                                   (check_that (nlist_eqb enc ref) (VMismatch 12))
+                                   (check_that (nlist_eqb enc ref) (VPropFail 1))
                | None => VMismatch 12
                end
       | IStream k _ =>
-          if Z.eqb rp 1 then VMismatch 11
+          if Z.eqb rp 1 then VPropFail 7
           else match table_find 6 (length k) t with
                | Some ref => vjoin (check_that (nlist_eqb dec m) (VPropFail 5))
-                                   (check_that (nlist_eqb enc ref) (VMismatch 12))
+                                   (check_that (nlist_eqb enc ref) (VPropFail 1))
                | None => VMismatch 12
                end
-      | INone => if Z.eqb rp 1 then VMismatch 11
+      | INone => if Z.eqb rp 1 then VPropFail 7
                  else check_that (nlist_eqb enc m && nlist_eqb dec m) (VPropFail 6)
       end
   end.
@@ -175,6 +190,16 @@ Definition same_used (a b : inst) : bool :=
   end.
 Definition runs (i : inst) : bool :=
   match i with IBlock c _ iv _ => negb (length iv <? cid_bs c) | _ => true end.
+
+(* kind 7: many instances created in one process, in the given order, from the same secret *)
+Fixpoint check_family (key iv m : list N) (t : list sx) (entries results : list sx) : verdict :=
+  match entries, results with
+  | [], [] => VOk
+  | SList [SBytes name; SInt kl] :: entries', SList [SInt cp; SInt rp; SBytes enc; SBytes dec] :: results' =>
+      vjoin (check_slicing name (firstn (Z.to_nat kl) key) iv m cp rp enc dec t)
+            (check_family key iv m t entries' results')
+  | _, _ => VBad
+  end.
 
 Definition check (c : sx) : verdict :=
   match c with
@@ -226,5 +251,8 @@ Definition check (c : sx) : verdict :=
           else VOk
       | _, _ => VOk
       end
+  | SList [SList [SInt 7%Z; SBytes key; SBytes iv; SList entries; SInt seed; SInt len];
+           SList [SList results; SList t]] =>
+      check_family key iv (lcg seed len) t entries results
   | _ => VBad
   end.
